@@ -92,7 +92,7 @@ fn comment(r: &mut Rng, exotic: bool) -> String {
     if !exotic {
         return format!("; {}", r.pick(&plain));
     }
-    let bits = ["\"quoted\"", "back\\slash", "tab\there", "a | b | c", "====", " | ", "#hash", ".TEXT", "naïve café", "日本語", "\u{1}ctl\u{7f}", "emoji 🎉", "'single'", "\\n not a newline", "trailing  ", "\\u{41}", "%s %d {}", "\\\\"];
+    let bits = ["\"quoted\"", "back\\slash", "tab\there", "a | b | c", "====", " | ", "#hash", ".TEXT", "naïve café", "日本語", "\u{1}ctl\u{7f}", "emoji 🎉", "'single'", "\\n not a newline", "trailing  ", "\\u{41}", "%s %d {}", "\\\\", "\u{0}12", "nul\u{0}7", "\u{0}", "\\0", "\\x41", "\u{1b}[0m", "\u{85}\u{2028}", "| lone |", "\t|\t", "a|b"];
     let n = 1 + r.below(3);
     let mut s = String::from(";");
     for _ in 0..n {
